@@ -180,7 +180,8 @@ Definition spec_ok (c : case) : bool :=
 
 (* class of the model state in which the first offending call was made (0 when nothing offends):
    1 = some node is deleted but the entry point is readable (what is left of F-C25-1: F-C25-4),
-   2 = the entry point is deleted (F-C25-2) *)
+   2 = the entry point is deleted (F-C25-2),
+   3 = no node deleted but some neighbour list is full, back-links are dropped (F-C25-5) *)
 Definition known_class (c : case) : Z :=
   match c with
   | Hist d m e tr =>
